@@ -46,12 +46,14 @@ Group(c) == CASE c.kind = "plain"  -> IF c.group # <<>> THEN c.group[1] ELSE ""
 Slug(c) == IF Group(c) = "" THEN Name(c) ELSE Group(c) \o ":" \o Name(c)
 
 \* a subclass: metaclass (kind) inherited; Meta inherited unless it declares one; words and module its own
-Sub(b, ch) == [words |-> ch.words, kind |-> b.kind, module |-> ch.module,
+Sub(b, ch) == [words |-> ch.words, kind |-> b.kind, module |-> ch.module, via |-> "own",
                name |-> IF ch.own THEN ch.name ELSE b.name,
                group |-> IF ch.own THEN ch.group ELSE b.group]
 
-Plain == {[words |-> w, name |-> n, group |-> g, kind |-> k, module |-> m] :
-             w \in Words, n \in MetaNames, g \in MetaGroups, k \in Kinds, m \in Modules}
+\* via: the Meta attributes are written in the task's Meta itself, or in a base class the Meta derives from
+\* (class Meta(CommonMeta)) - the same declaration either way
+Plain == {[words |-> w, name |-> n, group |-> g, kind |-> k, module |-> m, via |-> v] :
+             w \in Words, n \in MetaNames, g \in MetaGroups, k \in Kinds, m \in Modules, v \in {"own", "basemeta"}}
 
 VARIABLES case
 vars == <<case>>
